@@ -11,5 +11,7 @@ Definition switch_lists_okb : bool :=
   same_set sw_string_fields_build sw_string_fields_decode && same_set sw_string_fields_print sw_string_fields_decode &&
   same_set sw_uid_fields_build sw_uid_fields_print && same_set sw_gid_fields_build sw_gid_fields_print &&
   same_set sw_exclude_ok (flat_map (fun nm => match lookupS (s2l nm) fields_table with Some c => [c] | None => [] end) exclude_ok) &&
-  Nat.eqb (List.length exclude_ok) (List.length sw_exclude_ok).
+  Nat.eqb (List.length exclude_ok) (List.length sw_exclude_ok) &&
+  same_set sw_exit_only (flat_map (fun nm => match lookupS (s2l nm) fields_table with Some c => [c] | None => [] end) exit_only) &&
+  Nat.eqb (List.length exit_only) (List.length sw_exit_only).
 Lemma switch_lists_ok : switch_lists_okb = true. Proof. by_vm. Qed.
